@@ -1,6 +1,7 @@
 package logqlengine
 
 import (
+	"bufio"
 	"strconv"
 	"strings"
 
@@ -55,9 +56,20 @@ func (e *LogfmtExtractor) Process(_ otelstorage.Timestamp, line string, set Labe
 	return line, true
 }
 
+// newLogfmtDecoder returns a decoder for one log line.
+func newLogfmtDecoder(line string) *logfmt.Decoder {
+	r := strings.NewReader(line)
+	if len(line) >= bufio.MaxScanTokenSize {
+		// The default decoder gives up on a record of 64KiB and more ("token too long"):
+		// a long line is still a line, give the scanner room for all of it.
+		return logfmt.NewDecoderSize(r, len(line)+1)
+	}
+	return logfmt.NewDecoder(r)
+}
+
 func (e *LogfmtExtractor) extractSome(line string, set LabelSet) error {
 	// TODO(tdakkota): re-use decoder somehow.
-	d := logfmt.NewDecoder(strings.NewReader(line))
+	d := newLogfmtDecoder(line)
 
 	for d.ScanRecord() {
 		for d.ScanKeyval() {
@@ -73,7 +85,7 @@ func (e *LogfmtExtractor) extractSome(line string, set LabelSet) error {
 
 func (e *LogfmtExtractor) extractAll(line string, set LabelSet) error {
 	// TODO(tdakkota): re-use decoder somehow.
-	d := logfmt.NewDecoder(strings.NewReader(line))
+	d := newLogfmtDecoder(line)
 
 	for d.ScanRecord() {
 		for d.ScanKeyval() {
